@@ -27,6 +27,7 @@ impl BuildHasher for CkBH {
 }
 
 /// RNG whose words are arbitrary
+#[derive(Clone)]
 struct SymRng;
 impl rand::RngCore for SymRng {
     fn next_u32(&mut self) -> u32 { any() }
@@ -141,6 +142,28 @@ harness! {
         assert!(succinct::IntVec::len(&cf.table) == len0 && len0 == succinct::IntVec::len(&fresh.table), "C19 C11 clear keeps the table size");
         let mut x = 0;
         while x < 4 { assert!(cf.table.get(x as u64) == 0, "C19 clear frees every slot"); x += 1; }
+    }
+}
+
+// clone independence: clearing either side leaves the other side's table and counter as they were
+harness! {
+    #[kani::unwind(70)]
+    fn c19_cuckoo_clone_independent() {
+        let (mut cf, t, _bh) = arbitrary_filter();
+        let n0 = cf.n_elements;
+        let mut c = cf.clone();
+        let side: bool = any();
+        if side { c.clear(); } else { cf.clear(); }
+        let (kept, cleared) = if side { (&cf, &c) } else { (&c, &cf) };
+        let mut x = 0;
+        while x < 4 {
+            assert!(kept.table.get(x as u64) == t[x], "C19 a clone shares no table storage with its original");
+            assert!(cleared.table.get(x as u64) == 0, "C19 clear frees every slot");
+            x += 1;
+        }
+        assert!(kept.n_elements == n0 && kept.len() == n0 && cleared.is_empty(), "C19 a clone has its own element counter");
+        vcover!(n0 == 4 && side, "full table, clone cleared");
+        vcover!(n0 == 4 && !side, "full table, original cleared");
     }
 }
 
